@@ -160,6 +160,7 @@ def random_session(rng, S):
         [["render", 1, min(MAXW, S[0] + rng.randrange(1, 4)), min(MAXH, S[1] + rng.randrange(0, 3))]],
         [["set_size", rng.randrange(1, 14)]],
         [["render", 1, rng.randrange(1, MAXW + 1), 0], ["set_size", rng.randrange(1, 14)]],
+        [["cell_ratio", rng.choice([0.25, 0.4, 1.0])], ["render", 0, rng.randrange(1, MAXW + 1), 0]],
     ])
     steps = [["render", 0, S[0], S[1]]] + between + [["render", 0, S[0], S[1]]]
     if rng.random() < 0.5:
@@ -185,6 +186,27 @@ def gen_sessions(rng: random.Random, tier: str):
     # graphics
     yield make_case(rng, "kitty", "kitty", "box", False, "|", "-", "", 4, 3, 5, 3,
                     session=[["render", 0, 4, 3], ["render", 0, 7, 0], ["render", 0, 4, 3]])
+    # environment: the cell ratio (text) / cell size (graphics) changes between two layouts of a
+    # flow widget whose original size fits the width; rows() is asked before every render
+    for upscale in (False, True):
+        yield make_case(rng, "block", ident(), "flow", upscale, "<", "^", "", 8, 0, 4, 2,
+                        src=[4, 4], session=[["render", 0, 8, 0], ["cell_ratio", 1.0],
+                                             ["render", 0, 8, 0], ["render", 0, 3, 0],
+                                             ["cell_ratio", 0.25], ["render", 0, 8, 0],
+                                             ["render", 0, 3, 0]])
+        yield make_case(rng, "kitty", "kitty", "flow", upscale, "|", "-", "", 6, 0, 3, 2,
+                        src=[12, 24], cell=[4, 8], pixstyle="uniform", mode="RGB", sargs="L",
+                        session=[["render", 0, 6, 0], ["cell_size", 4, 4], ["render", 0, 6, 0],
+                                 ["cell_size", 6, 12], ["render", 0, 6, 0], ["render", 0, 2, 0]])
+    # a failing render with the error placeholder set: box-only and box/flow placeholders,
+    # flow and box sizing, upscale on/off
+    for upscale in (False, True):
+        yield make_case(rng, "block", ident(), "flow", upscale, "|", "-", "", 7, 0, 1, 1,
+                        src=[5, 6], broken=True,
+                        session=[["placeholder", "solid"], ["render", 0, 7, 0], ["render", 0, 3, 0],
+                                 ["render", 0, 6, 4],
+                                 ["placeholder", "image"], ["render", 0, 7, 0], ["render", 0, 3, 0],
+                                 ["render", 0, 6, 4]])
     for _ in range(2 if tier == "quick" else 60):
         S = (rng.randrange(2, 8), rng.randrange(2, MAXH))
         style = "block" if rng.random() < 0.8 else rng.choice(["kitty", "iterm2"])
@@ -265,6 +287,31 @@ def gen_cases(rng: random.Random, tier: str):
                         history=random_history(rng, W, H) if rng.random() < 0.35 else [])
 
 
+def reset_environment():
+    """Process-global state a scenario may have changed: cell ratio, error placeholder."""
+    import term_image
+    from term_image.widget import UrwidImage
+
+    term_image.set_cell_ratio(0.5)
+    try:
+        UrwidImage.set_error_placeholder(None)
+    except TypeError:  # older trees do not accept None
+        UrwidImage._ti_error_placeholder = None
+
+
+def make_placeholder(kind):
+    import urwid
+    from PIL import Image
+    from term_image.image import BlockImage
+    from term_image.widget import UrwidImage
+
+    if kind == "solid":  # the documented kind: a box widget
+        return urwid.SolidFill("?")
+    if kind == "image":  # supports box and flow sizing, 10 x 20 cells when it flows freely
+        return UrwidImage(BlockImage(Image.new("RGB", (10, 40), (90, 90, 90))), upscale=True)
+    return None
+
+
 def render_case(case):
     """Real widget + real (finalized) canvas for ``case``.
 
@@ -274,6 +321,7 @@ def render_case(case):
     from term_image.image import BlockImage, ITerm2Image, KittyImage
     from term_image.widget import UrwidImage, UrwidImageCanvas
 
+    reset_environment()
     stubs.set_identity(case["ident"])
     fg, bg = case["fg_bg"]
     cell = None if case["style"] == "block" else tuple(case.get("cell") or CELL)
@@ -437,13 +485,31 @@ def validate(batches, *, parallel=8, workers=2, timeout=900):
 
 def run_model(tier: str):
     cfg = "MC_UrwidCanvas.cfg" if tier == "quick" else "MC_UrwidCanvas_thorough.cfg"
-    return tlc.run("MC_UrwidCanvas", cfg, workers=8, timeout=900, coverage=True, deadlock=False)
+    flow = tlc.run("MC_FlowRows", "MC_FlowRows.cfg", workers=4, timeout=300, coverage=True,
+                   deadlock=False)
+    res = tlc.run("MC_UrwidCanvas", cfg, workers=8, timeout=900, coverage=True, deadlock=False)
+    res.flow = flow  # type: ignore[attr-defined]
+    return res
 
 
 def model_and_replay(rep: Report, res):
     """Design-level model + spec -> code replay of every CalcTrimOp transition."""
     from term_image.widget import UrwidImageCanvas
 
+    flow = res.flow
+    rep.add_tlc(flow)
+    rep.extra["mc_flow_rows"] = {"states": flow.distinct, "generated": flow.generated,
+                                 "coverage": {k: v[1] for k, v in flow.coverage.items()}}
+    if flow.violated:
+        rep.violation(
+            f"design:FlowRows:{flow.violated}",
+            "the flow sizing model in UrwidCanvas.tla violates " + flow.violated + "\n"
+            + flow.error_text[:1500],
+            {"kind": "design"},
+        )
+    for action in ("SetCellRatio", "SetPlaceholder", "Rows", "Render"):
+        if flow.coverage.get(action, (0, 0))[1] == 0:
+            raise tlc.MachineryError(f"vacuous: action {action} of MC_FlowRows never taken")
     rep.add_tlc(res)
     rep.extra["mc_urwid_canvas"] = {"states": res.distinct, "generated": res.generated,
                                     "coverage": {k: v[1] for k, v in res.coverage.items()}}
@@ -498,16 +564,16 @@ def model_and_replay(rep: Report, res):
 
 
 def record_canvas(case, canvas, announced, req, size_after, rects, table: RowTable, rep: Report,
-                  max_h: int, step: int = -1):
+                  max_h: int, step: int = -1, kind: str | None = None):
     """Record content() of one real canvas for ``rects`` (None = every sub-rectangle, "full" =
     the untrimmed rectangle only).  ``req`` = the size the widget was asked to render
     (rows 0 = flow).  Returns (entry, traces, meta, geo), "big" or None."""
     W, H = canvas.cols(), canvas.rows()
-    if W > MAXW or H > max_h:
+    if (W > MAXW or H > max_h) and rects != "full":
         return "big"
     # what the canvas shows when it is rendered: the reference for every later trim
     full = [table.add(row_bytes(r), reference=True) for r in canvas.content()]
-    iw, ih = canvas._ti_image_size  # evidence classification only
+    iw, ih = getattr(canvas, "_ti_image_size", (W, H))  # evidence classification only
     if callable(size_after):
         try:
             size_after = size_after()  # the image is re-rendered elsewhere; the canvas is kept
@@ -518,7 +584,8 @@ def record_canvas(case, canvas, announced, req, size_after, rects, table: RowTab
                 {"case": case},
             )
             return None
-    entry = {"W": W, "H": H, "kind": "text" if case["style"] == "block" else "gfx", "full": full,
+    entry = {"W": W, "H": H, "full": full,
+             "kind": kind or ("text" if case["style"] == "block" else "gfx"),
              "reqW": req[0], "reqH": req[1]}
     traces, meta = [], []
     if rects == "full":
@@ -576,12 +643,20 @@ def collect_session(case, rects, table: RowTable, rep: Report, only_step: int = 
     from term_image.image import BlockImage, ITerm2Image, KittyImage
     from term_image.widget import UrwidImage, UrwidImageCanvas
 
+    import term_image
+    from PIL import Image
+
+    reset_environment()
     stubs.set_identity(case["ident"])
     fg, bg = case["fg_bg"]
+    fg_bg = (fg and tuple(fg), bg and tuple(bg))
     cell = None if case["style"] == "block" else tuple(case.get("cell") or CELL)
-    stubs.set_term(size=(80, 30), cell=cell, fg_bg=(fg and tuple(fg), bg and tuple(bg)))
+    stubs.set_term(size=(80, 30), cell=cell, fg_bg=fg_bg)
     rng = random.Random(case["seed"])
-    img = imgs.make_image(rng, case["mode"], case["src"][0], case["src"][1], case["pixstyle"])
+    if case.get("broken"):  # sizing works, rendering fails (Pillow can not convert "La")
+        img = Image.new("La", tuple(case["src"]))
+    else:
+        img = imgs.make_image(rng, case["mode"], case["src"][0], case["src"][1], case["pixstyle"])
     cls = {"block": BlockImage, "kitty": KittyImage, "iterm2": ITerm2Image}[case["style"]]
     image = cls(img)
     sargs = "+" + case["sargs"] if case["sargs"] else ""
@@ -594,6 +669,18 @@ def collect_session(case, rects, table: RowTable, rep: Report, only_step: int = 
         try:
             if st[0] == "set_size":
                 image.set_size(st[1])
+                continue
+            if st[0] == "cell_ratio":  # environment: the global cell ratio changes
+                term_image.set_cell_ratio(float(st[1]))
+                continue
+            if st[0] == "cell_size":  # environment: the terminal's cell size changes
+                stubs.set_term(size=(80, 30), cell=(st[1], st[2]), fg_bg=fg_bg)
+                continue
+            if st[0] == "placeholder":
+                UrwidImage._ti_error_placeholder = None
+                ph = make_placeholder(st[1])
+                if ph is not None:
+                    UrwidImage.set_error_placeholder(ph)
                 continue
             _, wi, w, h = st
             widget = widgets[wi]
@@ -609,14 +696,17 @@ def collect_session(case, rects, table: RowTable, rep: Report, only_step: int = 
                 f"step {k} {st} raised {type(e).__name__}: {e}; case={json.dumps(case)}",
                 {"case": case, "step": k},
             )
-            break
-        if not isinstance(canvas, UrwidImageCanvas):
+            continue
+        foreign = not isinstance(canvas, UrwidImageCanvas)
+        if foreign and type(widget)._ti_error_placeholder is None:
             raise tlc.MachineryError(f"render() did not return an UrwidImageCanvas: {type(canvas)}")
         if only_step >= 0 and k != only_step:
             continue
-        rr = rects if rects is not None else (None if canvas.rows() <= MAXH else "full")
+        small = canvas.rows() <= MAXH and canvas.cols() <= MAXW and not foreign
+        rr = rects if rects is not None else (None if small else "full")
         out.append(record_canvas(case, canvas, announced, (w, h), None, rr, table, rep,
-                                 SWEEP_MAX_H, step=k))
+                                 10**6, step=k, kind="placeholder" if foreign else None))
+    reset_environment()
     return out
 
 
@@ -715,7 +805,7 @@ def main(rep: Report, replay: dict | None) -> None:
 def traces_part(rep: Report, replay: dict | None, t_start: float) -> None:
 
     rng = random.Random(rep.seed * 104729 + 17)
-    budget = 19000 if rep.tier == "quick" else 10**9
+    budget = 17500 if rep.tier == "quick" else 10**9
     batch_target = 2200
     batches, metas = [], []
     cur = None
@@ -803,7 +893,9 @@ def traces_part(rep: Report, replay: dict | None, t_start: float) -> None:
             "gfx-horizontal-trim": 0, "flow-canvas": 0, "box-canvas": 0,
             "gfx-flow-at-original-columns-of-non-multiple-source": 0,
             "text-cut-of-kept-canvas-after-image-resized": 0,
-            "box-canvas-redrawn-at-unchanged-size-after-image-resized": 0}
+            "box-canvas-redrawn-at-unchanged-size-after-image-resized": 0,
+            "flow-canvas-after-environment-change": 0, "placeholder-canvas-flow": 0,
+            "placeholder-canvas-box": 0}
     for b, vs in zip(batches, verdict_lists):
         for meta, v, trace in zip(b["_meta"], vs, b["traces"]):
             if meta is None:
@@ -814,6 +906,14 @@ def traces_part(rep: Report, replay: dict | None, t_start: float) -> None:
             W, H, iw, ih = geo["W"], geo["H"], geo["iw"], geo["ih"]
             if v["verdict"] == "ok":
                 gfx = case["style"] != "block"
+                if (tl, tt, cols, rows) == (0, 0, W, H) and geo["step"] >= 0:
+                    steps = case["session"]
+                    me = steps[geo["step"]]
+                    if not me[3] and any(st[0] in ("cell_ratio", "cell_size")
+                                         for st in steps[:geo["step"]]):
+                        seen["flow-canvas-after-environment-change"] += 1
+                    if case.get("broken"):
+                        seen["placeholder-canvas-box" if me[3] else "placeholder-canvas-flow"] += 1
                 if (tl, tt, cols, rows) == (0, 0, W, H) and geo["step"] > 0:
                     steps = case["session"]
                     me = steps[geo["step"]]
